@@ -152,6 +152,16 @@ Fixpoint result_locs_from (prev : list rty) (rs : list rty) : option (list rloc)
   end.
 Definition result_locs (rs : list rty) : option (list rloc) := result_locs_from [] rs.
 
+(* psABI 3.2.3 "Returning of Values": a MEMORY-class value is returned through a caller-provided
+   block whose address is the hidden first argument, and "on return %rax will contain the address
+   that has been passed in by the caller in %rdi".  MIR spells the hidden argument as a first
+   parameter of type rblk; rax is free for it when no integer-class result takes it. *)
+Definition sret_required (args : list aty) (rs : list rty) : bool :=
+  match args with
+  | ARblk _ :: _ => negb (existsb (fun r => rcls_eqb (rclass r) KInt) rs)
+  | _ => false
+  end.
+
 (* ---------------------------------------------------------------- values *)
 (* what the callee must find for an integer argument of type t whose MIR value is the 64-bit
    pattern v: the value converted to the prototype type and extended (MIR extends to 64 bits;
